@@ -372,6 +372,10 @@ def compare(cx, lines, ri, rm, kind, nontrivial):
         cx.count(" ".join(l.split()[2:]), nontrivial(l, a), kind(l, a))
         if i in rm:
             b = rm[i]
+            if b[0] == "ok" and b[-1] == "unknown" and a[0] == "ok" and len(a) == len(b):
+                # stale default nodes in the result: what re-validation makes of them is not modelled (Diff/Obs13.lean)
+                cx.dist["model-verdict-unknown(revalidation of stale defaults)"] += 1
+                a, b = a[:-1], b[:-1]
             if a != b and a[:2] not in (["err", "Crash"], ["err", "Timeout"]):
                 cx.disagree(COMP, l, a, b)
     if lines:
